@@ -2537,7 +2537,7 @@ def _decode_openssh_private(
         kdf = packet.get_string()
         kdf_data = packet.get_string()
         nkeys = packet.get_uint32()
-        _ = packet.get_string()                 # public_key
+        public_data = packet.get_string()
         key_data = packet.get_string()
         mac = packet.get_remaining_payload()
 
@@ -2615,6 +2615,10 @@ def _decode_openssh_private(
                 (unsafe_skip_rsa_key_validation,)
 
         key = handler.make_private(key_params)
+
+        if key.public_data != public_data:
+            raise KeyImportError('Invalid OpenSSH private key')
+
         key.set_comment(comment)
         return key
     except PacketDecodeError:
